@@ -376,7 +376,16 @@ def gen_scenarios(spec, rng, n):
                 fs, s, m = rng.choice(cands)      # else: same RPC again (state carried between calls)
             ops.append(gen_op(spec, rng, codec, fs, s, m, f"o{j}"))
         engine.add_in_place_edits(rng, [{"ops": ops}])
-        out.append({"client": "rest", "actors": [{"start": 0.0, "ops": ops}], "jitter_default": 0.0})
+        sc = {"client": "rest", "actors": [{"start": 0.0, "ops": ops}], "jitter_default": 0.0}
+        if rng.random() < 0.4:
+            # the application has REFRESHABLE credentials: an HTTP 401 (expired token) makes google-auth refresh them
+            # and re-send the very same request below api-core's retry layer; the re-sent request is judged like any other
+            sc["credentials"] = "refreshable"
+            for op in ops:
+                if op.get("kind") == "unary" and rng.random() < 0.35:
+                    op["server"].insert(0, {"code": "UNAUTHENTICATED"})
+                    op["token_expired_first"] = True
+        out.append(sc)
     return out
 
 
